@@ -42,7 +42,9 @@ Definition quiesce_ok (m : mon) (q : quiesce_obs) : bool :=
   (m_c_conn_win m =? avail) &&
   (avail + unsent =? cinit) &&
   (0 <=? unsent) && (unsent <? inflowMinRefresh) &&
-  match m_pending m with [] => true | _ => false end.
+  match m_pending m with [] => true | _ => false end &&
+  (* the client holds no stream: the peer counts none as open *)
+  (open_count (m_streams m) =? 0).
 
 Definition const_table : list (bytes * Z) :=
   [ (bs "inflowMinRefresh", inflowMinRefresh);
